@@ -2,6 +2,8 @@ package main
 
 import (
 	"math"
+	"math/bits"
+	"sort"
 
 	"github.com/gcash/bchutil"
 )
@@ -78,6 +80,65 @@ func genC17(r *Rng, tier string, emit func(Case)) {
 	e("tounit", "subsat", "1068211668854925", "-11")
 	for _, f := range []float64{0, math.Copysign(0, -1), math.NaN(), math.Inf(1), math.Inf(-1), 5e-324, 1e-9, 5e-9, 0.5e-8, 1.5e-8, 2.5e-8, 21e6, 1e10, 4.6e10, 9.2e10} {
 		e("newamt", "special", fb(f))
+	}
+	// hard-to-round quotients: amounts a for which a / 10^k lies closest to the midpoint of two neighbouring doubles
+	// (found by scanning runs of consecutive amounts with exact integer arithmetic, at every decimal magnitude of the
+	// quotient). Any way of computing the quotient other than one correctly rounded division (a reciprocal,
+	// whole + fraction, two roundings) differs from it on such inputs first.
+	const maxSat = 2100000000000000
+	runLen := uint64(500000)
+	if tier == "thorough" {
+		runLen = 4000000
+	}
+	for k := 1; k <= 18; k++ {
+		pow := uint64(1)
+		for j := 0; j < k; j++ {
+			pow *= 10
+		}
+		for m := 0; m < 16; m++ {
+			lo := pow
+			for j := 0; j < m && lo <= maxSat; j++ {
+				lo *= 10
+			}
+			if lo > maxSat/2 {
+				break
+			}
+			hi := lo * 10
+			if hi > maxSat {
+				hi = maxSat
+			}
+			if hi-lo <= runLen {
+				continue
+			}
+			a0 := lo + r.U64()%(hi-lo-runLen)
+			type cand struct{ a, d uint64 }
+			best := []cand{}
+			for a := a0; a < a0+runLen; a++ {
+				// scale so that the quotient has 53 significant bits: a * 2^s / 10^k in [2^52, 2^53)
+				sh := uint(53 - bits.Len64(a/pow))
+				h, l := a>>(64-sh), a<<sh
+				_, rem := bits.Div64(h%pow, l, pow)
+				d := rem - pow/2
+				if rem < pow/2 {
+					d = pow/2 - rem
+				}
+				if len(best) < 5 || d < best[len(best)-1].d {
+					best = append(best, cand{a, d})
+					sort.Slice(best, func(i, j int) bool { return best[i].d < best[j].d })
+					if len(best) > 5 {
+						best = best[:5]
+					}
+				}
+			}
+			for _, c := range best {
+				sa := int64(c.a)
+				if r.Intn(4) == 0 {
+					sa = -sa
+				}
+				e("tounit", "hardquot:"+itoa(k-8), i64s(sa), itoa(k-8))
+				e("fmt", "hardquot:"+itoa(k-8), i64s(sa), itoa(k-8))
+			}
+		}
 	}
 	units := []int{6, 3, 0, -3, -6, -8}
 	for i := 0; i < n; i++ {
